@@ -43,6 +43,8 @@ type AuthCfg struct {
 	// Password is the cleartext the generator hashed into Options["hash"]; "" when the
 	// authenticator has no usable hash.
 	Password string `json:"x_password,omitempty" yaml:"x_password,omitempty"`
+	// KeychainErr: the simulated keychain fails lookups for this credential (fault).
+	KeychainErr bool `json:"x_keychain_err,omitempty" yaml:"x_keychain_err,omitempty"`
 }
 
 type AcctCfg struct {
@@ -121,6 +123,7 @@ func (d Doc) forRender() Doc {
 	strip := func(a *AuthCfg) {
 		if a != nil {
 			a.Password = ""
+			a.KeychainErr = false
 		}
 	}
 	for i := range c.Users {
